@@ -562,7 +562,8 @@ func (m *DKGProposalFSM) actionConfirmationError(inEvent fsm.Event, args ...inte
 		}
 	case EventDKGResponseConfirmationError:
 		switch dkgProposalParticipant.Status {
-		case internal.ResponseAwaitConfirmation:
+		case internal.ResponseAwaitConfirmation, internal.DealAwaitConfirmation, internal.DealConfirmed:
+			// the deal statuses: this node is still collecting its deals
 			dkgProposalParticipant.Status = internal.ResponseConfirmationError
 		case internal.ResponseConfirmed:
 			err = errors.New("{Status} already confirmed")
@@ -577,7 +578,9 @@ func (m *DKGProposalFSM) actionConfirmationError(inEvent fsm.Event, args ...inte
 		}
 	case EventDKGMasterKeyConfirmationError:
 		switch dkgProposalParticipant.Status {
-		case internal.MasterKeyAwaitConfirmation:
+		case internal.MasterKeyAwaitConfirmation, internal.DealAwaitConfirmation, internal.DealConfirmed,
+			internal.ResponseAwaitConfirmation, internal.ResponseConfirmed:
+			// the deal and response statuses: this node is still behind
 			dkgProposalParticipant.Status = internal.MasterKeyConfirmationError
 		case internal.MasterKeyConfirmed:
 			err = errors.New("{Status} already confirmed")
